@@ -594,6 +594,8 @@ class Hypergraph:
 
         """
         members = set(members)
+        if None in members:
+            raise XGIError("None cannot be a node")
 
         if idx in self._edge.keys():  # check that uid is not present yet
             warn(f"uid {idx} already exists, cannot add edge {members}")
@@ -722,9 +724,12 @@ class Hypergraph:
                     continue
                 try:
                     members = list(members)
-                    self._edge[idx] = set(members)
+                    members_set = set(members)
                 except TypeError as e:
                     raise XGIError("Invalid ebunch format") from e
+                if None in members_set:
+                    raise XGIError("None cannot be a node")
+                self._edge[idx] = members_set
                 for n in members:
                     if n not in self._node:
                         self._node[n] = set()
@@ -783,9 +788,12 @@ class Hypergraph:
             else:
                 try:
                     members = list(members)
-                    self._edge[idx] = set(members)
+                    members_set = set(members)
                 except TypeError as e:
                     raise XGIError("Invalid ebunch format") from e
+                if None in members_set:
+                    raise XGIError("None cannot be a node")
+                self._edge[idx] = members_set
 
                 for n in members:
                     if n not in self._node:
